@@ -243,6 +243,7 @@ def cpu_budget_verdict(data: bytes, depth_limit, cpu_s: int = 200):
     inp = os.path.join(d, "in.bin")
     with open(inp, "wb") as f:
         f.write(data)
+    IN_CONFIRM[0] += 1
     try:
         p = subprocess.run([sys.executable, "-m", "vf.cpucheck", inp, "none" if depth_limit is None else str(depth_limit), str(cpu_s)], cwd=VERIF_DIR, capture_output=True, text=True, timeout=cpu_s * 20 + 600, preexec_fn=die_with_parent)
         line = (p.stdout.strip().splitlines() or [""])[-1]
@@ -258,4 +259,5 @@ def cpu_budget_verdict(data: bytes, depth_limit, cpu_s: int = 200):
     except subprocess.TimeoutExpired:
         return {"verdict": "inconclusive", "where": "?"}
     finally:
+        IN_CONFIRM[0] -= 1
         shutil.rmtree(d, ignore_errors=True)
